@@ -93,6 +93,12 @@ func thoroughExtras(root string, p *PropDef, o runOpts) map[string]any {
 	}
 	ren := renameInvariance(exe, root, o.repo, p.ID)
 	fmt.Printf("   rename invariance (every local, parameter and receiver renamed): %s\n", ren)
+	mir := variantInvariance(exe, root, o.repo, p.ID, func(src, dst string) (int, error) { return mirrorComparisons(src, dst) }, "comparisons mirrored")
+	fmt.Printf("   mirror invariance (a < b written b > a wherever neither side is a constant or a call): %s\n", mir)
+	com := variantInvariance(exe, root, o.repo, p.ID, func(src, dst string) (int, error) { return commuteArithmetic(src, dst) }, "operations commuted")
+	fmt.Printf("   commute invariance (operands of integer + * | & ^ exchanged wherever neither contains a call): %s\n", com)
+	inv := variantInvariance(exe, root, o.repo, p.ID, func(src, dst string) (int, error) { return invertIfElse(src, dst) }, "if/else statements inverted")
+	fmt.Printf("   invert invariance (if c {A} else {B} written if !c {B} else {A}): %s\n", inv)
 	fmt.Printf("   mutant self-test: %d patches: %d killed, %d missed, %d skipped; behaviour-preserving variants: %d silent, %d false alarms (not part of the verdict)\n", len(patches), killed, missed, skipped, silent, falseAlarm)
 	for _, r := range results {
 		if r.Outcome != "killed" && r.Outcome != "silent" {
@@ -100,7 +106,7 @@ func thoroughExtras(root string, p *PropDef, o runOpts) map[string]any {
 		}
 	}
 	return map[string]any{"mutants_run": len(patches), "mutants_killed": killed, "mutants_missed": missed, "mutants_skipped": skipped,
-		"benign_variants_silent": silent, "benign_variants_false_alarm": falseAlarm, "mutants": results, "rename_invariance": ren}
+		"benign_variants_silent": silent, "benign_variants_false_alarm": falseAlarm, "mutants": results, "rename_invariance": ren, "mirror_invariance": mir, "commute_invariance": com, "invert_invariance": inv}
 }
 
 func runMutant(exe, root, repo, prop, patch string) mutantResult {
@@ -221,7 +227,13 @@ func cmdAnalyseVariant(args []string) int {
 // renameInvariance analyses a copy of the tree in which every function-level
 // variable has another name; the rules must report nothing new on it.
 func renameInvariance(exe, root, repo, prop string) string {
-	dir, err := os.MkdirTemp("", "htsverif-ren-")
+	return variantInvariance(exe, root, repo, prop, func(src, dst string) (int, error) { return renameLocals(src, dst, "Q") }, "identifiers renamed")
+}
+
+// variantInvariance: rewrite a copy of the tree with a behaviour-preserving
+// transformation and analyse it; nothing new may be reported.
+func variantInvariance(exe, root, repo, prop string, rewrite func(src, dst string) (int, error), what string) string {
+	dir, err := os.MkdirTemp("", "htsverif-inv-")
 	if err != nil {
 		return "skipped: " + err.Error()
 	}
@@ -229,7 +241,7 @@ func renameInvariance(exe, root, repo, prop string) string {
 	if err := copyTree(repo, dir); err != nil {
 		return "skipped: " + err.Error()
 	}
-	n, err := renameLocals(repo, dir, "Q")
+	n, err := rewrite(repo, dir)
 	if err != nil {
 		return "skipped: " + firstLine(err.Error())
 	}
@@ -247,9 +259,9 @@ func renameInvariance(exe, root, repo, prop string) string {
 	}
 	switch {
 	case err == nil:
-		return fmt.Sprintf("silent (%d identifiers renamed, same verdict)", n)
+		return fmt.Sprintf("silent (%d %s, same verdict)", n, what)
 	case len(rep) > 0:
-		return "FALSE ALARM on the renamed copy: " + strings.Join(rep, "; ")
+		return "FALSE ALARM on the rewritten copy: " + strings.Join(rep, "; ")
 	}
 	return "skipped: analysis error: " + firstLine(buf.String())
 }
